@@ -11,11 +11,29 @@ Definition var_share (rmse : R) : R := (1 - 1 / 4) * rmse ^ 2.       (* (1 - the
 Lemma var_share_pos rmse : 0 < rmse -> 0 < var_share rmse.
 Proof. intros H. unfold var_share. assert (0 < rmse ^ 2) by (apply pow_lt; exact H). lra. Qed.
 
-(* the generated scalar core, for a positive cost *)
-Lemma core_pos_cost rmse v c T : 0 < c ->
+(* the generated scalar core: ceil of the optimum when it is a representable integer, the error value -1 (ValueError) otherwise *)
+Lemma core_spec rmse v c T :
+  giles_alloc_core rmse v c T = if Rltb (giles_optimal rmse v c T) int_bound then Rceil (giles_optimal rmse v c T) else -1.
+Proof. unfold giles_alloc_core, giles_optimal, cost_used, int_bound.
+  destruct (Rltb _ _); reflexivity. Qed.
+
+Lemma int_bound_big : 4 <= int_bound.
+Proof. unfold int_bound. replace (IZR 2 / IZR 1) with 2 by field.
+  change 63%nat with (2 + 61)%nat. rewrite pow_add. assert (1 <= 2 ^ 61) by (apply pow_R1_Rle; lra). simpl (2 ^ 2). nra. Qed.
+
+Lemma core_pos_cost rmse v c T : 0 < c -> sqrt (v / c) * T / var_share rmse < int_bound ->
   giles_alloc_core rmse v c T = Rceil (sqrt (v / c) * T / var_share rmse).
-Proof. intros Hc. unfold giles_alloc_core, var_share.
-  destruct (Reqb c (IZR 0)) eqn:E; [apply Reqb_true in E; simpl in E; lra|]. reflexivity. Qed.
+Proof. intros Hc Hb. rewrite core_spec. unfold giles_optimal, cost_used.
+  destruct (Reqb c 0) eqn:E; [apply Reqb_true in E; lra|]. fold (var_share rmse).
+  destruct (Rltb _ _) eqn:E2; [reflexivity|]. apply Rltb_false in E2. lra. Qed.
+
+Lemma in_range_pos_cost rmse T : forall V C, Forall (fun c => 0 < c) C -> in_range rmse T V C ->
+  length V = length C ->
+  Forall2 (fun v c => sqrt (v / c) * T / var_share rmse < int_bound) V C.
+Proof. induction V as [|v V IH]; intros [|c C] HC HR HL; simpl in HL; try discriminate; constructor.
+  - destruct HR as [H _]. inversion HC; subst. unfold giles_optimal, cost_used in H.
+    destruct (Reqb c 0) eqn:E; [apply Reqb_true in E; lra|]. exact H.
+  - destruct HR as [_ HR]. inversion HC; subst. apply IH; auto. Qed.
 
 Lemma Rsum_nonneg l : Forall (fun x => 0 <= x) l -> 0 <= Rsum l.
 Proof. induction 1; simpl; lra. Qed.
@@ -61,11 +79,12 @@ Proof. intros HB HT. induction V as [|v V IH]; intros [|c C] [|n N] HV HC HG; si
       { apply Rmult_le_pos; [apply Rmult_le_pos; lra|]. apply Rlt_le, Rinv_0_lt_compat; exact HT. }
       replace ((sqrt (v * c) + S_of V C) * B / T) with (sqrt (v * c) * B / T + S_of V C * B / T) by (field; lra). lra. Qed.
 
-Lemma alloc_ge_bound rmse T : forall V C, length V = length C -> Forall (fun c => 0 < c) C ->
+Lemma alloc_ge_bound rmse T : forall V C, length V = length C -> Forall (fun c => 0 < c) C -> in_range rmse T V C ->
   ge_bound T (var_share rmse) V C (alloc_with rmse T V C).
-Proof. induction V as [|v V IH]; intros [|c C] HL HC; simpl in HL; try discriminate; simpl; [exact I|].
-  inversion HC; subst. split; [|apply IH; [lia|assumption]].
-  rewrite core_pos_cost by assumption. apply Rceil_ub. Qed.
+Proof. induction V as [|v V IH]; intros [|c C] HL HC HR; simpl in HL; try discriminate; simpl; [exact I|].
+  inversion HC; subst. destruct HR as [Hr HR]. split; [|apply IH; [lia|assumption|assumption]].
+  rewrite core_pos_cost; [apply Rceil_ub|assumption|].
+  unfold giles_optimal, cost_used in Hr. destruct (Reqb c 0) eqn:E; [apply Reqb_true in E; lra|]. exact Hr. Qed.
 
 Lemma est_var_zero V : Forall (fun v => 0 <= v) V -> forall C N, S_of V C = 0 -> Forall (fun c => 0 < c) C ->
   length V = length C -> est_var V N = 0.
@@ -76,16 +95,21 @@ Proof. induction 1 as [|v V Hv HV IH]; intros [|c C] N HS HC HL; simpl in HL; tr
   assert (v = 0). { apply sqrt_eq_0 in Hz; [|apply Rmult_le_pos; lra]. apply Rmult_integral in Hz. destruct Hz; lra. }
   subst v. destruct (Rltb 0 0) eqn:E; [apply Rltb_true in E; lra|]. rewrite (IH C N HS'); auto. lra. Qed.
 
-(* C06_budget for the code's answer: ceil'ed Giles allocation, all vectors with positive costs, all rmse > 0 *)
+(* C06_budget for the code's answer: ceil'ed Giles allocation, all vectors with positive costs, all rmse > 0, whenever the
+   optimum is a representable integer on every level (otherwise the code raises ValueError) *)
 Theorem budget rmse V C : 0 < rmse -> length V = length C ->
-  Forall (fun v => 0 <= v) V -> Forall (fun c => 0 < c) C ->
+  Forall (fun v => 0 <= v) V -> Forall (fun c => 0 < c) C -> in_range rmse (S_of V C) V C ->
   est_var V (giles_alloc rmse V C) <= var_share rmse.
-Proof. intros Hr HL HV HC. pose proof (var_share_pos rmse Hr) as HB. unfold giles_alloc.
+Proof. intros Hr HL HV HC HR. pose proof (var_share_pos rmse Hr) as HB. unfold giles_alloc.
   destruct (Req_dec (S_of V C) 0) as [E|E].
   - rewrite (est_var_zero V HV C _ E HC HL). lra.
   - pose proof (S_of_nonneg V C). assert (HT : 0 < S_of V C) by lra.
-    pose proof (budget_general _ _ HB HT V C _ HV HC (alloc_ge_bound rmse (S_of V C) V C HL HC)) as Hb.
+    pose proof (budget_general _ _ HB HT V C _ HV HC (alloc_ge_bound rmse (S_of V C) V C HL HC HR)) as Hb.
     replace (S_of V C * var_share rmse / S_of V C) with (var_share rmse) in Hb by (field; lra). exact Hb. Qed.
+
+(* outside that range the answer is the error value: no wrapped integer is ever returned *)
+Lemma core_out_of_range rmse v c T : int_bound <= giles_optimal rmse v c T -> giles_alloc_core rmse v c T = -1.
+Proof. intros H. rewrite core_spec. destruct (Rltb _ _) eqn:E; [apply Rltb_true in E; lra|reflexivity]. Qed.
 
 (* F-C06-2: a level with zero cost and positive variance is given N = 1 and the budget is exceeded *)
 Lemma Rceil_eq x n : IZR (n - 1) < x <= IZR n -> Rceil x = IZR n.
@@ -98,25 +122,31 @@ Proof. exists 1, [1; 1], [1; 0]. split; [lra|]. split; [repeat constructor; lra|
   unfold giles_alloc, S_of. simpl sqrt_vc. simpl Rsum. rewrite Rmult_1_r, Rmult_0_r, sqrt_1, sqrt_0.
   simpl alloc_with. simpl est_var.
   destruct (Rltb 0 1) eqn:E; [|apply Rltb_false in E; lra]. clear E.
-  unfold giles_alloc_core.
-  destruct (Reqb 1 (IZR 0)) eqn:E1; [apply Reqb_true in E1; simpl in E1; lra|].
-  destruct (Reqb 0 (IZR 0)) eqn:E0; [|assert (Reqb 0 0 = true) by (apply Reqb_true; reflexivity); simpl in E0; congruence].
-  replace (1 / 1) with 1 by field. rewrite sqrt_1.
   set (big := IZR 1000000000000000000000000000000 / IZR 1).
   assert (Hbig : 4 <= big) by (unfold big; lra).
   assert (Hs : 0 < sqrt (1 / big) <= 1 / 2).
   { split; [apply sqrt_lt_R0; apply Rdiv_lt_0_compat; lra|].
     replace (1 / 2) with (sqrt (1 / 2 * (1 / 2))) by (apply sqrt_square; lra). apply sqrt_le_1_alt.
     apply Rle_trans with (1 / 4); [|lra]. unfold Rdiv. rewrite !Rmult_1_l. apply Rinv_le_contravar; lra. }
+  pose proof int_bound_big as HI.
+  assert (E0 : giles_optimal 1 1 1 (1 + (0 + 0)) = 4 / 3).
+  { unfold giles_optimal, cost_used. destruct (Reqb 1 0) eqn:E; [apply Reqb_true in E; lra|].
+    replace (1 / 1) with 1 by field. rewrite sqrt_1. field. }
+  assert (E1 : giles_optimal 1 1 0 (1 + (0 + 0)) = sqrt (1 / big) * (1 + (0 + 0)) / ((1 - 1 / 4) * 1 ^ 2)).
+  { unfold giles_optimal, cost_used. assert (Hq : Reqb 0 0 = true) by (apply Reqb_true; reflexivity). rewrite Hq. reflexivity. }
+  rewrite !core_spec. rewrite E0, E1.
+  assert (Hy1 : sqrt (1 / big) * (1 + (0 + 0)) / ((1 - 1 / 4) * 1 ^ 2) <= 1).
+  { apply Rle_trans with ((1 / 2) * (1 + (0 + 0)) / ((1 - 1 / 4) * 1 ^ 2)); [|lra].
+    apply Rmult_le_compat_r; [apply Rlt_le, Rinv_0_lt_compat; lra|]. apply Rmult_le_compat_r; lra. }
+  destruct (Rltb (4 / 3) int_bound) eqn:R0; [|apply Rltb_false in R0; lra].
+  destruct (Rltb (sqrt (1 / big) * (1 + (0 + 0)) / ((1 - 1 / 4) * 1 ^ 2)) int_bound) eqn:R1; [|apply Rltb_false in R1; lra].
   match goal with |- context [_ / Rceil ?x0 + (_ / Rceil ?x1 + 0)] => set (y0 := x0); set (y1 := x1) end.
   assert (H1 : Rceil y1 = 1).
-  { apply (Rceil_eq _ 1%Z). simpl. unfold y1. split.
-    - apply Rdiv_lt_0_compat; [|lra]. apply Rmult_lt_0_compat; lra.
-    - apply Rle_trans with ((1 / 2) * (1 + (0 + 0)) / ((1 - 1 / 4) * 1 ^ 2)); [|lra].
-      apply Rmult_le_compat_r; [apply Rlt_le, Rinv_0_lt_compat; lra|]. apply Rmult_le_compat_r; lra. }
+  { apply (Rceil_eq _ 1%Z). simpl. unfold y1. split; [|exact Hy1].
+    apply Rdiv_lt_0_compat; [|lra]. apply Rmult_lt_0_compat; lra. }
   rewrite H1.
   assert (H0 : 0 < Rceil y0).
-  { eapply Rlt_le_trans; [|apply Rceil_ub]. unfold y0. apply Rdiv_lt_0_compat; lra. }
+  { eapply Rlt_le_trans; [|apply Rceil_ub]. unfold y0. lra. }
   assert (0 < 1 / Rceil y0) by (apply Rdiv_lt_0_compat; lra).
   unfold var_share. lra. Qed.
 
@@ -171,4 +201,7 @@ Lemma cons_eq {A} (a a' : A) l l' : a = a' -> l = l' -> a :: l = a' :: l'.
 Proof. now intros -> ->. Qed.
 (* a level without variance gets no sample *)
 Lemma core_zero_var rmse c T : giles_alloc_core rmse 0 c T = 0.
-Proof. unfold giles_alloc_core. destruct (Reqb c (IZR 0)); unfold Rdiv; rewrite !Rmult_0_l, sqrt_0, !Rmult_0_l; exact (Rceil_IZR 0). Qed.
+Proof. rewrite core_spec. assert (E : giles_optimal rmse 0 c T = 0) by (unfold giles_optimal, Rdiv; rewrite !Rmult_0_l, sqrt_0, !Rmult_0_l; reflexivity).
+  rewrite E. pose proof int_bound_big. destruct (Rltb 0 int_bound) eqn:R; [exact (Rceil_IZR 0)|apply Rltb_false in R; lra]. Qed.
+Lemma Rltb_intro x y : x < y -> Rltb x y = true.
+Proof. apply Rltb_true. Qed.
